@@ -67,12 +67,25 @@ pub enum Class {
 /// runs `bin args..` with a CPU-time limit (logical bound, independent of machine load) and a
 /// generous wall-clock watchdog whose firing is inconclusive
 pub fn run_limited(bin: &Path, args: &[String], cwd: Option<&Path>, cpu_s: u32) -> Class {
+    run_limited_stdin(bin, args, cwd, cpu_s, None)
+}
+
+/// same, with the input given on stdin (the commands read stdin when no file is named)
+pub fn run_limited_stdin(bin: &Path, args: &[String], cwd: Option<&Path>, cpu_s: u32, stdin: Option<&Path>) -> Class {
     let mut sh = Command::new("sh");
     let mut script = format!("ulimit -t {cpu_s}; ulimit -c 0; exec \"$0\" \"$@\"");
     if false {
         script.push(' ');
     }
-    sh.arg("-c").arg(script).arg(bin).args(args).stdin(Stdio::null()).stdout(Stdio::piped()).stderr(Stdio::piped());
+    sh.arg("-c").arg(script).arg(bin).args(args).stdout(Stdio::piped()).stderr(Stdio::piped());
+    match stdin.and_then(|p| std::fs::File::open(p).ok()) {
+        Some(f) => {
+            sh.stdin(Stdio::from(f));
+        }
+        None => {
+            sh.stdin(Stdio::null());
+        }
+    }
     if let Some(d) = cwd {
         sh.current_dir(d);
     }
@@ -429,7 +442,7 @@ fn single_case(cfg: &Config, tmp: &Path, corpus: &[(Kind, String)], cmds: &[Cmd]
             }
         }
     }
-    if candidates.is_empty() && r.chance(1, 12) {
+    if candidates.is_empty() && (r.chance(1, 12) || (idx % 29 == 0)) {
         // random non-candidates are confirmed as well
         let fitting: Vec<&Cmd> = cmds.iter().filter(|c| c.kind == kind || (kind == Kind::Specification && c.kind == Kind::Theory && false)).collect();
         if !fitting.is_empty() {
@@ -441,12 +454,27 @@ fn single_case(cfg: &Config, tmp: &Path, corpus: &[(Kind, String)], cmds: &[Cmd]
         return;
     }
     let f = tmp.join(format!("in_{idx}.{}", ext_of(&kind)));
-    std::fs::write(&f, &text).unwrap();
+    let mut bytes: Vec<u8> = text.clone().into_bytes();
+    let raw_bytes = r.chance(1, 25);
+    if raw_bytes {
+        // invalid UTF-8 somewhere in the file
+        let pos = if bytes.is_empty() { 0 } else { r.upto(bytes.len()) };
+        for (k, b) in [0xffu8, 0xc3, 0x28, 0x80].iter().enumerate() {
+            bytes.insert((pos + k).min(bytes.len()), *b);
+        }
+        st.inc("inputs_with_invalid_utf8");
+    }
+    std::fs::write(&f, &bytes).unwrap();
+    let via_stdin = r.chance(1, 5);
     for cmd in to_run {
         let mut args = cmd.args.clone();
-        args.push(f.to_str().unwrap().to_string());
+        if !via_stdin {
+            args.push(f.to_str().unwrap().to_string());
+        } else {
+            st.inc("subprocess_runs_via_stdin");
+        }
         for (profile, bin) in [("release", cfg.anthem_release()), ("dev", cfg.anthem_dev())] {
-            let class = run_limited(&bin, &args, None, 20);
+            let class = run_limited_stdin(&bin, &args, None, 20, if via_stdin { Some(&f) } else { None });
             st.inc("subprocess_runs");
             st.inc(&format!("subprocess_runs_{}", cmd.name.split('-').next().unwrap()));
             report(st, profile, &cmd.args.join(" "), &class, &[(format!("input.{}", ext_of(&kind)), text.clone())]);
